@@ -261,6 +261,8 @@ def run(cx):
     # gets in reply, so "never times out while idle with keepalive" needs the sync-reply mechanism
     from props.C11 import sync_reply_mechanism
     sync_reply_mechanism(cx, "C10.f", "C10.g")
+    from props.shared import dispatch_table
+    dispatch_table(cx, "C10.h", only={"DataFrame", "SyncFrame", "AckFrame"})
 
 
 SELFTEST = [
